@@ -67,7 +67,7 @@ def make_tagger(two_haps, primary=False, singletons=False, haps=("HAP1", "HAP2")
 class C10(PipelineProp):
     pid = "C10"
     design_ref = "6/C10"
-    required_theorems = ['C10_rename_by_size_spec', 'C10_haplotig_names_sequential', 'C10_unloc_names_sequential', 'C10_other_labels_keep_counters', 'C10_groups_sorted_desc', 'C10_numbering', 'C10_single_hap_groups', 'C10_name_chromosomes_single_total', 'C10_name_group_effect', 'C10_multi_chr_list', 'C10_output_order_total', 'C10_unloc_between', 'C10_example', 'C10_csv_line_count', 'C10_csv_none_iff', 'C10_csv_lines_shape', 'C10_csv_groups', 'C10_chr_of_prefixed', 'C10_csv_orphan_unloc_refuted', 'C10_names_unique_single_haplotype', 'C10_names_unique', 'C10_fuse_keys_nodup', 'C10_duplicate_is_collision', 'C10_duplicate_names_refuted', 'C10_names_unique_instance', 'C10_two_hap_groups', 'C10_two_hap_names', 'C10_first_haplotype_decides', 'C10_chromosome_numbers', 'C10_chromosome_numbers_need_distinct_map_names']
+    required_theorems = ['C10_rename_by_size_spec', 'C10_haplotig_names_sequential', 'C10_unloc_names_sequential', 'C10_other_labels_keep_counters', 'C10_groups_sorted_desc', 'C10_numbering', 'C10_single_hap_groups', 'C10_name_chromosomes_single_total', 'C10_name_group_effect', 'C10_multi_chr_list', 'C10_output_order_total', 'C10_unloc_between', 'C10_example', 'C10_csv_line_count', 'C10_csv_none_iff', 'C10_csv_lines_shape', 'C10_csv_groups', 'C10_chr_of_prefixed', 'C10_csv_orphan_unloc_refuted', 'C10_names_unique_single_haplotype', 'C10_names_unique', 'C10_fuse_keys_nodup', 'C10_duplicate_is_collision', 'C10_duplicate_names_refuted', 'C10_names_unique_instance', 'C10_two_hap_groups', 'C10_two_hap_names', 'C10_first_haplotype_decides', 'C10_chromosome_numbers', 'C10_chromosome_numbers_need_distinct_map_names', 'C10_two_haplotype_names_end_to_end']
     n_quick = 400
 
     def rule(self):
